@@ -53,6 +53,11 @@ MEETS = {
 }
 
 
+# pairs that must meet on every non-refusing path (not only when a particular option of the scheme is on)
+EVERY_PATH = {"columns~E(v)", "v~claimed-value", "commitment~witness", "value~witness", "row_coms~z", "com_eval~z_b",
+              "com_eval~claimed-value", "commitment~proofs", "commitment~proof"}
+
+
 def meet_starts(ctx, a, spec):
     from ..flow import payload_nodes
     g = ctx.graph(a)
@@ -103,6 +108,9 @@ def run(rep, ctx, tier):
                 continue
             ok, detail, where = R1M.check(ctx, a, A, B)
             rep.add("R1m", "%s:meet:%s" % (a.key, name), ok, "%s: %s" % (name, detail), where)
+            if ok and name in EVERY_PATH:
+                ok2, detail2, where2 = R1M.check_every_path(ctx, a, A, B)
+                rep.add("R1m", "%s:meet-on-every-path:%s" % (a.key, name), ok2, "%s: %s" % (name, detail2), where2 or where)
         if a.info.get("adt") == "ipa_pc::InnerProductArgPC" and a.method in ("check", "batch_check"):
             nd = RFS.run(rep, ctx, a, [(e[0], e[1], e[2] if len(e) > 2 else None) for e in a.info["proof"]
                                        if e[1] in ("l_vec", "r_vec", "hiding_comm")], "RFS")
